@@ -116,6 +116,9 @@ pub mod types {
           TailExt ::= SEQUENCE { a INTEGER (0..255), b BOOLEAN OPTIONAL, ..., c INTEGER (0..7) OPTIONAL }
           Mixed ::= SEQUENCE { a INTEGER (0..255) OPTIONAL, b BOOLEAN, c INTEGER (-10..10,...) DEFAULT 3, d UTF8String OPTIONAL, e OCTET STRING (SIZE(1..4)) }
           Color ::= ENUMERATED { red, green, ..., blue, black }
+          Marker ::= ENUMERATED { one, two, three, ... }
+          WideInt ::= INTEGER (0..MAX, ...)
+          Shifted ::= INTEGER (-10..10, ...)
           Pick ::= CHOICE { num INTEGER (0..1000), txt IA5String (SIZE(0..5)), ..., flag BOOLEAN }
           ListA ::= SEQUENCE (SIZE(0..3)) OF INTEGER (0..15)
           Nest ::= SEQUENCE { head Color, items SEQUENCE OF Pick, opt TailExt OPTIONAL, n NULL, wide INTEGER (-32768..32767) }
@@ -166,6 +169,11 @@ fn ref_color(v: &Color, out: &mut Vec<bool>) {
     let idx = match v { Color::Red => 0, Color::Green => 1, Color::Blue => 2, Color::Black => 3 };
     x::index(2, true, idx, out);
 }
+fn ref_marker(v: &Marker, out: &mut Vec<bool>) {
+    // 14.3: the extension marker alone makes the type extensible: extension bit 0 + index in 0..2
+    let idx = match v { Marker::One => 0, Marker::Two => 1, Marker::Three => 2 };
+    x::index(3, true, idx, out);
+}
 fn ref_pick(v: &Pick, out: &mut Vec<bool>) {
     match v {
         Pick::Num(n) => { x::index(2, true, 0, out); x::cwn(0, 1000, *n as i64, out); }
@@ -209,6 +217,17 @@ fn check<T: Writable + Readable + PartialEq + std::fmt::Debug>(v: &T, want: &[bo
     Ok(())
 }
 
+/// round trip only (types outside the conformance profile: no X.691 reference)
+fn check_rt<T: Writable + Readable + PartialEq + std::fmt::Debug>(v: &T) -> Result<(), String> {
+    let (bits, bytes) = enc(v)?;
+    let mut r = UperReader::from((&bytes[..], bits));
+    let back: T = r.read().map_err(|e| format!("{v:?}: decode failed: {e:?}"))?;
+    if &back != v || r.bits_remaining() != 0 {
+        return Err(format!("{v:?} decodes as {back:?} with {} bits left", r.bits_remaining()));
+    }
+    Ok(())
+}
+
 struct Gen(u64);
 impl Gen {
     fn n(&mut self, m: u64) -> u64 { self.0 = self.0.wrapping_mul(6364136223846793005).wrapping_add(1442695040888963407); (self.0 >> 33) % m.max(1) }
@@ -238,7 +257,15 @@ pub fn run_zoo(i: &Input) -> Result<(), String> {
                                 e: (0..1 + g.n(4)).map(|k| k as u8 * 77).collect() };
                 ref_mixed(&v, &mut want); check(&v, &want, &mut w, &mut all)?; vals_m.push(v); order.push(1);
             }
-            2 => { let v = [Color::Red, Color::Green, Color::Blue, Color::Black][g.n(4) as usize]; ref_color(&v, &mut want); check(&v, &want, &mut w, &mut all)?; }
+            2 => {
+                if g.b() { let v = [Color::Red, Color::Green, Color::Blue, Color::Black][g.n(4) as usize]; ref_color(&v, &mut want); check(&v, &want, &mut w, &mut all)?; }
+                else if g.b() { let v = [Marker::One, Marker::Two, Marker::Three][g.n(3) as usize]; ref_marker(&v, &mut want); check(&v, &want, &mut w, &mut all)?; }
+                else {
+                    // 13.1: root values of an extensible INTEGER: extension bit 0 + constrained form over the root
+                    let v = Shifted([-10i64, -1, 0, 1, 5, 10][g.n(6) as usize] as _);
+                    want.push(false); x::cwn(-10, 10, v.0 as i64, &mut want); check(&v, &want, &mut w, &mut all)?;
+                }
+            }
             3 => { let v = g.pick(); ref_pick(&v, &mut want); check(&v, &want, &mut w, &mut all)?; }
             4 => { let v = ListA((0..g.n(4)).map(|_| g.n(16) as u8).collect()); ref_lista(&v, &mut want); check(&v, &want, &mut w, &mut all)?; }
             _ => {
@@ -248,6 +275,7 @@ pub fn run_zoo(i: &Input) -> Result<(), String> {
             }
         }
     }
+    check_rt(&WideInt([0u64, 1, 5, 255, 1 << 40, (1 << 62) + 3][g.n(6) as usize] as _))?;
     // the shared writer holds exactly the concatenation
     let got = bits_of(w.byte_content());
     if w.bit_len() != all.len() || got[..all.len()] != all[..] {
